@@ -7,7 +7,7 @@ listing with a minimum level returns exactly the events at or above it; each eve
 the level of the preceding event with the same ID; every collected event is handed exactly once, in FIFO
 order, to each handler registered on that topic, and to no handler of another topic.
 -/
-import Kap.Proofs.C09Global
+import Kap.Proofs.C09Delivery3
 namespace Kap.Props.C09
 open Kap.C09
 
@@ -91,11 +91,46 @@ theorem previous_is_preceding_state (t : Topic) (s : ES) :
     (t.updateEvent s).2 = t.sorted.find? (fun e => e.id == s.id) :=
   (updateEvent_refines t s).2
 
+/-! ### Handler delivery, for every history -/
+
+/-- **Exactly once, FIFO, while registered, no cross-topic delivery**: for every history, what handler `h`
+has received for topic `T` (through all of its registrations on `T`, closed or live) is exactly the
+sub-sequence of the events collected on `T` while `h` was registered on `T`, in collection order, each with
+the previous level of its id — the history spec `specDelivered`, which never looks at other topics or
+other handlers. (Assumption recorded in checks/C09.json: no handler queue overflows.) -/
+theorem delivery_exactly_once_fifo (ops : List Op) (hwf : ∀ op ∈ ops, op.wf = true) (T h : String) :
+    (run ops).delivered T h = specDelivered T h ops :=
+  (drel_run ops hwf T h).got
+
+/-- A handler is registered in the model exactly when the history says so. -/
+theorem registered_iff (ops : List Op) (hwf : ∀ op ∈ ops, op.wf = true) (T h : String) :
+    isReg (run ops) T h = (specRun T h ops).registered :=
+  (drel_run ops hwf T h).reg
+
+/-- No cross-topic delivery, stated outright: operations on other topics never change what `h` receives
+for `T` (the spec step ignores them). -/
+theorem other_topics_irrelevant (T h : String) (st : SpecSt) (op : Op)
+    (hother : match op with
+      | .collect T' .. | .update T' .. | .reg T' _ | .dereg T' _ | .replace T' .. | .deltopic T' | .restore T' _ => T' ≠ T) :
+    specStep T h st op = st := by
+  cases op <;> simp_all [specStep, curStep, regStep]
+
+/-- `removeHandler`'s swap-with-last keeps exactly the other handlers (no handler is lost or duplicated). -/
+theorem removeSwap_keeps_others (h' : String) (l : List Handler) (hnd : (hids l).Nodup) (x : Handler) :
+    x ∈ (removeSwap h' l).1 ↔ x ∈ l ∧ x.hid ≠ h' :=
+  removeSwap_mem h' l hnd x
+
 /-! ### Non-vacuity: the hypotheses are met by a concrete, non-trivial history -/
 
 example : let ops := [Op.collect "t" "a" 2 1, Op.collect "t" "b" 3 2, Op.collect "t" "a" 0 3,
                        Op.restore "u" [⟨"x", 1, 0⟩, ⟨"y", 3, 0⟩]]
     (∀ op ∈ ops, op.wf = true) ∧ (run ops).maxLevel "t" = 3 ∧ (run ops).maxLevel "u" = 3 := by
+  decide
+
+example : let ops := [Op.reg "t" "h", Op.collect "t" "a" 2 1, Op.reg "t" "g", Op.collect "t" "a" 3 2,
+                       Op.dereg "t" "h", Op.collect "t" "a" 0 3, Op.collect "u" "a" 1 4]
+    (run ops).delivered "t" "h" = [⟨"t", "a", 2, 1, 0⟩, ⟨"t", "a", 3, 2, 2⟩] ∧
+    (run ops).delivered "t" "g" = [⟨"t", "a", 3, 2, 2⟩, ⟨"t", "a", 0, 3, 3⟩] := by
   decide
 
 end Kap.Props.C09
